@@ -236,7 +236,9 @@ def _sld2(atoms, density, wlkw):
     import periodictable as pt
     if not atoms or not density:
         return np.float64(0.0), np.float64(0.0)
-    res = pt.neutron_sld(pt.formula(_lib_atoms(atoms)), density=density, **wlkw)
+    # {atom: count} + density=: the plainest documented call; no Formula object that could carry a density of its
+    # own (a one-element formula would) takes part in the oracle
+    res = pt.neutron_sld(_lib_atoms(atoms), density=density, **wlkw)
     return np.asarray(res[0], float), np.asarray(res[1], float)
 
 
